@@ -182,7 +182,8 @@ macro_rules! rt_type {
 }
 
 fn rand_fx(r: &mut Rng) -> FXRates {
-    let names = ["usd", "eur", "gbp", "jpy", "cad", "aud", "nok"];
+    // (a currency code is any three BYTES once lower-cased: "a\u{a3}" - a, pound sign - is one)
+    let names = ["usd", "eur", "gbp", "jpy", "cad", "aud", "nok", "a\u{a3}"];
     let nc = 2 + r.below(5) as usize;
     let mut idx: Vec<usize> = (0..names.len()).collect();
     r.shuffle(&mut idx);
@@ -470,7 +471,9 @@ pub fn roundtrip(seed: u64, n: usize, out: &str) {
             let t = rand_knots(&mut r, k);
             let nn = t.len() - k;
             let solved = r.coin();
-            let cf: Option<Vec<f64>> = if solved { Some((0..nn).map(|_| rand_bits(&mut r)).collect()) } else { None };
+            // (coefficients handed to the constructor need not number n: it accepts any, and what it accepts must come back)
+            let nc_ = if r.chance(0.25) { r.below(nn as u64 + 2) as usize } else { nn };
+            let cf: Option<Vec<f64>> = if solved { Some((0..nc_).map(|_| rand_bits(&mut r)).collect()) } else { None };
             rt_type!(o, key, "PPSplineF64", verif::ppspline_f64_wrap(PPSpline::new(k, t.clone(), cf)), |s: &PPSplineF64| p_spline(verif::ppspline_f64_inner(s), |x| fj(*x)),
                      Tagged::PPSplineF64, |t| if let Tagged::PPSplineF64(x) = t { Some(x) } else { None });
             let cd: Option<Vec<Dual>> = if solved { Some((0..nn).map(|_| rand_dual(&mut r)).collect()) } else { None };
